@@ -170,6 +170,18 @@ func (ii InlinedInstr) CallsInSlice(v ssa.Value, name string) []InlinedInstr {
 	return r.found
 }
 
+// CallChain returns the call instructions through which the instruction was
+// inlined, innermost first.
+func (ii InlinedInstr) CallChain() []ssa.CallInstruction {
+	var res []ssa.CallInstruction
+	for f := ii.frame; f != nil; f = f.parent {
+		if f.call != nil {
+			res = append(res, f.call)
+		}
+	}
+	return res
+}
+
 // ControlConds returns, with their calling contexts, the branch conditions on
 // which the instruction is control dependent: in its own function and, for an
 // inlined instruction, those of the call sites leading to it.
@@ -246,6 +258,51 @@ type kindEval struct {
 	subjectPath string
 	kind        types.Type
 	assume      map[string]bool
+	oracle      func(v ssa.Value) (val bool, ok bool) // consulted first for every condition
+}
+
+// BoolResults evaluates which boolean values result #idx of fn can take when
+// conditions are decided by oracle (undecided ones are explored both ways):
+// repository helpers called for their boolean result are evaluated the same way.
+func BoolResults(c *Ctx, fn *ssa.Function, idx int, oracle func(v ssa.Value) (bool, bool)) (canTrue, canFalse bool) {
+	k := &kindEval{c: c, oracle: oracle, subjectPath: "\x00none"}
+	for _, b := range fn.Blocks {
+		ret, ok := b.Instrs[len(b.Instrs)-1].(*ssa.Return)
+		if !ok || idx >= len(ret.Results) {
+			continue
+		}
+		if !k.reach(fn.Blocks[0], b, nil) {
+			continue
+		}
+		res := ret.Results[idx]
+		if phi, isPhi := res.(*ssa.Phi); isPhi && phi.Block() == b {
+			for i, p := range b.Preds {
+				if !k.reachEdge(fn.Blocks[0], p, b, nil) {
+					continue
+				}
+				if v, ok := k.known(phi.Edges[i], nil, 1); ok {
+					if v {
+						canTrue = true
+					} else {
+						canFalse = true
+					}
+				} else {
+					canTrue, canFalse = true, true
+				}
+			}
+			continue
+		}
+		if v, ok := k.known(res, nil, 0); ok {
+			if v {
+				canTrue = true
+			} else {
+				canFalse = true
+			}
+		} else {
+			canTrue, canFalse = true, true
+		}
+	}
+	return
 }
 
 func constBool(v ssa.Value) (bool, bool) {
@@ -261,6 +318,11 @@ func (k *kindEval) known(v ssa.Value, fr *rpFrame, d int) (val bool, ok bool) {
 	}
 	if b, ok := constBool(v); ok {
 		return b, true
+	}
+	if k.oracle != nil {
+		if b, ok := k.oracle(v); ok {
+			return b, true
+		}
 	}
 	r := &ReadPaths{c: k.c}
 	switch x := v.(type) {
